@@ -112,6 +112,7 @@ func (p *c03) Run(w *lib.Worker, idx int, r *lib.Rand) lib.Case {
 		if !cfg.Strict {
 			continue // reused validators for the two strict configurations only (cost)
 		}
+		_ = p.session.Validate(gen.JSON(gen.TwinOf(lib.NewRand(int64(idx), "C03-twin", idx), doc)), cfg) // same names, other content, same validator object
 		ro := p.session.Validate(text, cfg)
 		c.Evals++
 		if ro.Panic != "" {
